@@ -1546,6 +1546,19 @@ impl<'s, P: Pay + Send + Sync> W<'s, P> {
                     ti,
                     tj
                 );
+                let (pe, bpe) = (
+                    Arc::ptr_eq(x, y),
+                    ArcBorrow::ptr_eq(&x.borrow_arc(), &y.borrow_arc()),
+                );
+                ensure!(
+                    pe == same && bpe == same,
+                    "C14",
+                    "cmp",
+                    "Arc::ptr_eq / ArcBorrow::ptr_eq = {}/{} for handles to {} allocation",
+                    pe,
+                    bpe,
+                    if same { "the same" } else { "different" }
+                );
                 ensure!(
                     ord == ti.cmp(&tj),
                     "C14",
